@@ -55,6 +55,28 @@ def run(data):
             else:
                 chk("mixed-mul", relclose((p * q).quantify(), Fraction(p.base) ** p.exponent * Fraction(q.base) ** q.exponent))
                 chk("mixed-div", relclose((p / q).quantify(), Fraction(p.base) ** p.exponent / Fraction(q.base) ** q.exponent))
+            # products and quotients cancel back: (p*q)/q is p and (p/q)*q is p (same object for one base, 1e-9 across bases)
+            if p.base == q.base:
+                chk("cancel-back", ((p * q) / q) is p and ((p / q) * q) is p)
+            else:
+                chk("cancel-back~", relclose(((p * q) / q).quantify(), pv) and relclose(((p / q) * q).quantify(), pv)
+                    and relclose(((q * p) / q).quantify(), pv))
+            # base units cancelling completely must keep the prefixes: (p*u) * (q*u**-1) is (p*q) * One
+            if u is not One and not isinstance(m, Decimal) and u.prefix is IdentityPrefix:
+                full = (p * u) * (q * u ** -1)
+                chk("full-cancel-keeps-prefix", set(full.factors) == {One} and relclose(full.prefix.quantify(), Fraction(p.base) ** p.exponent * Fraction(q.base) ** q.exponent))
+                qa, qb = Quantity(m, p * u), Quantity(2, q * u ** -1)
+                chk("full-cancel-quantity", relclose((qa * qb).unprefixed().magnitude, Fraction(m) * 2 * Fraction(p.base) ** p.exponent * Fraction(q.base) ** q.exponent))
+                # a prefixed dimensionless ratio used in a second step keeps its value
+                ratio = Quantity(m, p * u) / Quantity(2, u)
+                other = Quantity(3, q * u)
+                chk("ratio-then-multiply", relclose((ratio * other).unprefixed().magnitude, Fraction(m) / 2 * 3 * Fraction(p.base) ** p.exponent * Fraction(q.base) ** q.exponent))
+                if m != 0:
+                    chk("ratio-then-divide", relclose((other / ratio).unprefixed().magnitude, 3 * Fraction(q.base) ** q.exponent / (Fraction(m) / 2 * Fraction(p.base) ** p.exponent)))
+            # powers of compound mixed-base units: ((p*u)/(q*v))**n has the value of its parts
+            if n != 0 and u is not One and u.prefix is IdentityPrefix:
+                cu = (p * u) / (q * mk_unit([[None, "second", 1]]))
+                chk("compound-power", relclose((cu ** n).prefix.quantify(), (Fraction(p.base) ** p.exponent / Fraction(q.base) ** q.exponent) ** n))
             chk("identity-neutral", (p * IdentityPrefix) is p and (IdentityPrefix * p) is p and (p / IdentityPrefix) is p and (IdentityPrefix * u) is u)
             # dividing by a prefixed unit divides by its factor
             qq = Quantity(m, u * u)
